@@ -368,7 +368,19 @@ func scenarioCalls(name string) []call {
 var scenarioNames = []string{"two-json-first-calls", "json-vs-text", "op-client-vs-shared", "three-calls"}
 
 // submitOne performs one call and returns what the caller observed.
+// keptResp is a response a reader kept beyond ReadResponse (generated readers keep it inside API errors).
+type keptResp struct {
+	resp runtime.ClientResponse
+	echo string
+}
+
 func submitOne(rt *client.Runtime, c call) string {
+	s, _ := submitKeep(rt, c)
+	return s
+}
+
+func submitKeep(rt *client.Runtime, c call) (string, *keptResp) {
+	var kept *keptResp
 	op := &runtime.ClientOperation{
 		ID: "echo-" + c.Tok, Method: "POST", PathPattern: "/echo/{tok}",
 		ProducesMediaTypes: []string{"application/json", "text/plain"}, ConsumesMediaTypes: []string{"application/json"},
@@ -381,6 +393,7 @@ func submitOne(rt *client.Runtime, c call) string {
 			return req.SetBodyParam("body-" + c.Tok)
 		}),
 		Reader: runtime.ClientResponseReaderFunc(func(resp runtime.ClientResponse, cons runtime.Consumer) (interface{}, error) {
+			kept = &keptResp{resp, resp.GetHeader("X-Echo")}
 			if resp.GetHeader("Content-Type") == "text/plain" {
 				var s string
 				if err := cons.Consume(resp.Body(), &s); err != nil {
@@ -399,7 +412,7 @@ func submitOne(rt *client.Runtime, c call) string {
 		op.Client = &http.Client{Transport: echoRT{"opclient"}}
 	}
 	res, err := rt.Submit(op)
-	return fmt.Sprintf("%v err=%v", res, err)
+	return fmt.Sprintf("%v err=%v", res, err), kept
 }
 
 func expected(c call) string {
@@ -423,14 +436,25 @@ func newRuntime() *client.Runtime {
 func runSchedule(name string, prefix []int) (*verifrt.Exec, []string) {
 	calls := scenarioCalls(name)
 	got := make([]string, len(calls))
+	kept := make([]*keptResp, len(calls))
 	rt := newRuntime()
 	x := verifrt.Run(prefix, 0, func() {
 		for i, c := range calls {
 			i, c := i, c
-			verifrt.GoNamed("call-"+c.Tok, func() { got[i] = submitOne(rt, c) })
+			verifrt.GoNamed("call-"+c.Tok, func() { got[i], kept[i] = submitKeep(rt, c) })
 		}
 	})
+	recheckKept(got, kept)
 	return x, got
+}
+
+// recheckKept looks again, after every call has finished, at the responses the readers kept.
+func recheckKept(got []string, kept []*keptResp) {
+	for i, k := range kept {
+		if k != nil && k.resp.GetHeader("X-Echo") != k.echo {
+			got[i] += fmt.Sprintf(" KEPT-RESPONSE-CHANGED(X-Echo %q -> %q)", k.echo, k.resp.GetHeader("X-Echo"))
+		}
+	}
 }
 
 func judgeSchedule(name string, x *verifrt.Exec, got []string) (string, string) {
@@ -467,14 +491,16 @@ func exploreScenario(name string, o verifrt.Options, c *sched.Collector) verifrt
 	return verifrt.Explore(o, func() (func(), func(*verifrt.Exec)) {
 		calls := scenarioCalls(name)
 		got := make([]string, len(calls))
+		kept := make([]*keptResp, len(calls))
 		rt := newRuntime()
 		main := func() {
 			for i, cl := range calls {
 				i, cl := i, cl
-				verifrt.GoNamed("call-"+cl.Tok, func() { got[i] = submitOne(rt, cl) })
+				verifrt.GoNamed("call-"+cl.Tok, func() { got[i], kept[i] = submitKeep(rt, cl) })
 			}
 		}
 		done := func(x *verifrt.Exec) {
+			recheckKept(got, kept)
 			cls, what := judgeSchedule(name, x, got)
 			if cls == "replay-divergence" {
 				c.Fail(cls, what, SchedCase{"schedule", name, x.Choices()})
@@ -549,7 +575,12 @@ func main() {
 		r.LoadReplay(&probe)
 		cl, what := "", ""
 		var cs any
-		if probe.Kind == "input" {
+		if probe.Kind == "history" {
+			var hc HistCase
+			r.LoadReplay(&hc)
+			cs = hc
+			cl, what = checkHistory(hc)
+		} else if probe.Kind == "input" {
 			var ic InputCase
 			r.LoadReplay(&ic)
 			cs = ic
@@ -632,6 +663,31 @@ func main() {
 		r.Set("input_axes", map[string]int{"content_type_values": len(cts), "registries": len(regs), "statuses": len(statuses), "op_client": 2, "op_context": 2, "transport_context": 2, "default_media_types": len(defaults)})
 	}
 
+	// E4 histories on one Runtime
+	if part("hist") {
+		depth := 5
+		if r.Thorough() {
+			depth = 7
+		}
+		seqs := enum.Seqs(len(histOps), 1, depth)
+		enum.Parallel(len(seqs), r.OutOfTime, func(i int) {
+			hc := HistCase{"history", seqs[i]}
+			cl, what := checkHistory(hc)
+			r.Eval(1)
+			r.Traces(1)
+			r.Transitions(int64(len(seqs[i])))
+			if cl != "" {
+				r.Fail(cl, what, hc)
+			}
+		})
+		r.States(int64(len(seqs)))
+		r.Nontrivial(int64(len(seqs)))
+		r.Outcome("history:sequences", int64(len(seqs)))
+		r.Set("history_depth", depth)
+		r.Set("history_ops", histOps)
+		r.Sample(HistCase{"history", seqs[len(seqs)/2]})
+	}
+
 	// E3
 	bounds := map[string]int{}
 	for _, name := range scenarioNames {
@@ -694,4 +750,124 @@ func main() {
 		r.Finish("partial debugging run: "+parts, false)
 	}
 	r.Finish("E1: full product of response Content-Type values x consumer registries x status x operation/transport client x operation/transport context (x default media type where the header is absent); E3: every schedule of 2-3 concurrent Submit calls on one fresh Runtime within the stated preemption bound, every caller must read the echo of its own path, header, query and body token through the consumer of its own response type; non-trivial = distinct (header, registry, default, observed outcome) combinations plus executed schedules (distinct by construction of the DFS)", true)
+}
+
+// ---------- E4: histories on ONE Runtime: calls interleaved with registry edits ----------
+
+var histOps = []string{"Submit(json)", "Submit(text)", "Submit(x-unk)", "ReplaceJSONConsumer", "SwapTextForXUnk", "ToggleCatchAll"}
+
+// HistCase is the replayable form of one history.
+type HistCase struct {
+	Kind string `json:"kind"` // "history"
+	Ops  []int  `json:"ops"`
+}
+
+type seqRT struct{ n int }
+
+func (s *seqRT) RoundTrip(req *http.Request) (*http.Response, error) {
+	s.n++
+	ct := req.Header.Get("X-Resp-Type")
+	code := []int{200, 404, 201, 500}[s.n%4]
+	return &http.Response{StatusCode: code, Status: fmt.Sprintf("%d %s", code, http.StatusText(code)), Proto: "HTTP/1.1", ProtoMajor: 1, ProtoMinor: 1,
+		Header: http.Header{"Content-Type": []string{ct}, "X-Seq": []string{fmt.Sprint(s.n)}},
+		Body:   io.NopCloser(strings.NewReader("body-" + fmt.Sprint(s.n))), Request: req}, nil
+}
+
+// checkHistory runs one op sequence on a fresh Runtime and compares every call with the registry
+// as it is at that moment; responses the reader kept are inspected again at the end.
+func checkHistory(hc HistCase) (string, string) {
+	rt := client.New("example.test", "/base", []string{"http"})
+	tr := &seqRT{}
+	rt.Transport = tr
+	reg := map[string]string{"application/json": "json#1", "text/plain": "text#1", "application/xml": "xml#1"}
+	rt.Consumers = map[string]runtime.Consumer{}
+	for k, v := range reg {
+		rt.Consumers[k] = recConsumer{v}
+	}
+	gen := 1
+	type kept struct {
+		resp runtime.ClientResponse
+		seq  string
+		code int
+	}
+	var keep []kept
+	for i, op := range hc.Ops {
+		at := fmt.Sprintf("op %d (%s) of %v", i+1, histOps[op], hc.Ops)
+		switch op {
+		case 0, 1, 2:
+			ct := []string{"application/json", "text/plain", "application/x-unk"}[op]
+			var gotCons string
+			var k kept
+			called := false
+			o := &runtime.ClientOperation{ID: "h", Method: "GET", PathPattern: "/h", Schemes: []string{"http"},
+				Params: runtime.ClientRequestWriterFunc(func(req runtime.ClientRequest, _ strfmt.Registry) error {
+					return req.SetHeaderParam("X-Resp-Type", ct)
+				}),
+				Reader: runtime.ClientResponseReaderFunc(func(resp runtime.ClientResponse, cons runtime.Consumer) (interface{}, error) {
+					called = true
+					if rc, ok := cons.(recConsumer); ok {
+						gotCons = rc.id
+					}
+					k = kept{resp, resp.GetHeader("X-Seq"), resp.Code()}
+					return nil, nil
+				})}
+			_, err := rt.Submit(o)
+			want, ok := reg[ct]
+			if !ok {
+				want, ok = reg["*/*"]
+			}
+			switch {
+			case !ok && err == nil:
+				return "history/no-error-without-consumer", fmt.Sprintf("%s: no consumer is registered for %q (registry %v) but the call succeeded with consumer %q", at, ct, reg, gotCons)
+			case !ok:
+				if called {
+					return "history/reader-called-and-error", at
+				}
+			case err != nil:
+				return "history/unexpected-error", fmt.Sprintf("%s: %v (registry %v)", at, err, reg)
+			case gotCons != want:
+				return "history/stale-or-wrong-consumer", fmt.Sprintf("%s: reader was handed consumer %q, the registry now holds %q for %q (registry %v)", at, gotCons, want, ct, reg)
+			}
+			if called {
+				if k.seq != fmt.Sprint(tr.n) {
+					return "history/response-of-another-call", fmt.Sprintf("%s: reader saw X-Seq %q, this was exchange %d", at, k.seq, tr.n)
+				}
+				keep = append(keep, k)
+			}
+		case 3:
+			gen++
+			reg["application/json"] = fmt.Sprintf("json#%d", gen)
+			rt.Consumers["application/json"] = recConsumer{reg["application/json"]}
+		case 4:
+			if _, ok := reg["text/plain"]; ok {
+				delete(reg, "text/plain")
+				delete(rt.Consumers, "text/plain")
+				gen++
+				reg["application/x-unk"] = fmt.Sprintf("xunk#%d", gen)
+				rt.Consumers["application/x-unk"] = recConsumer{reg["application/x-unk"]}
+			} else {
+				delete(reg, "application/x-unk")
+				delete(rt.Consumers, "application/x-unk")
+				gen++
+				reg["text/plain"] = fmt.Sprintf("text#%d", gen)
+				rt.Consumers["text/plain"] = recConsumer{reg["text/plain"]}
+			}
+		case 5:
+			if _, ok := reg["*/*"]; ok {
+				delete(reg, "*/*")
+				delete(rt.Consumers, "*/*")
+			} else {
+				gen++
+				reg["*/*"] = fmt.Sprintf("any#%d", gen)
+				rt.Consumers["*/*"] = recConsumer{reg["*/*"]}
+			}
+		}
+	}
+	// the response handed to a reader stays the response of ITS exchange
+	for _, k := range keep {
+		if k.resp.GetHeader("X-Seq") != k.seq || k.resp.Code() != k.code {
+			return "history/kept-response-changed", fmt.Sprintf("history %v: the response of exchange %s (status %d) now reports X-Seq %q status %d", hc.Ops, k.seq, k.code, k.resp.GetHeader("X-Seq"), k.resp.Code())
+		}
+	}
+	return "", ""
 }
